@@ -17,6 +17,12 @@ class C05Check(ExplainerCheck):
         if run_index % 500 == 231:
             # more than a thousand explained rows (block-wise evaluation with a partial last block)
             return gen_batch_plan(rng, self.prop, huge=True, names_kind="str", classes=["batch"])
+        if run_index % 40 == 29:
+            from .plan import gen_long_interval_plan
+            return gen_long_interval_plan(rng, self.prop, names_kind=kinds[run_index % 4])
+        if run_index % 40 == 9:
+            from .plan import gen_max_inner_plan
+            return gen_max_inner_plan(rng, self.prop, names_kind=kinds[run_index % 4])
         big = run_index % 40 == 17
         if big:
             return gen_batch_plan(rng, self.prop, big=True, names_kind=kinds[run_index % 4], classes=["batch"])
